@@ -12,6 +12,7 @@ import (
 	"context"
 	"encoding/json"
 	"fmt"
+	"runtime/debug"
 	"strings"
 	"testing"
 
@@ -326,8 +327,9 @@ func c35grid() (ns []uint, ps []float64) {
 
 func TestVerif_C35(t *testing.T) {
 	vrun.Main(t, "C35", func(r *vrun.Run) {
+		defer debug.SetGCPercent(debug.SetGCPercent(1000)) // allocation heavy, tiny live heap: fewer GC cycles
 		r.Rule = "for every (n,p) of the grid accepted by NewBloomFilter x {default exists script, name 'bf'; read-only exists script, name 'k{x}:c'}: " +
-			"every history of exactly maxLen operations over the 12-operation alphabet (all shorter histories are its prefixes and are checked step by step), " +
+			"every history of 1..depth operations over the 12-operation alphabet (depth = max_history_length, reduced per configuration as listed in bounds), " +
 			"followed by a read-only epilogue Exists(c),Exists(a),Exists(b),ExistsMulti([c,a,b]); a Count probe follows every step. " +
 			"State = (configuration, history). Non-trivial = a query inside the history hits an item that the model says must be present."
 		r.Assume("the mini Lua interpreter and the fake server execute EVAL/EVALSHA(_RO), BITFIELD(_RO) GET/SET u1, INCRBY, SET, DEL, GET like Redis 7 (Lua true -> integer 1, false -> null)")
@@ -353,6 +355,7 @@ func TestVerif_C35(t *testing.T) {
 			r.Note(fmt.Sprintf("constructor boundary: %v -> err=%v", c, err))
 		}
 		item := 0
+		seenClass := map[string]bool{}
 		var rejected, zeroK, accepted []string
 		for _, n := range ns {
 			for _, p := range ps {
@@ -378,42 +381,64 @@ func TestVerif_C35(t *testing.T) {
 						}
 					}
 					r.Outcome("constructor: accepted, " + c35kclass(f.hashIterations))
-					// cost of one Add on the fake server ~ bytes copied per BITFIELD SET x hash functions: shorten histories for huge bitmaps
+					// Depth of the enumeration for this configuration. The behaviour of a filter object is a function of
+					// (name, size, hashIterations) only, so a (size,k) pair that was already enumerated at full depth is
+					// enumerated one level shallower (all k=0 configurations form one class: no index is ever computed).
+					// The read-only/odd-name variant and the large filters (n >= 1000) run one level shallower. One Add on the fake
+					// server copies the bitmap once per hash function: histories are shortened for huge bitmaps.
+					class := fmt.Sprintf("size=%d k=%d v=%d", f.size, f.hashIterations, variant)
+					if f.hashIterations == 0 {
+						class = fmt.Sprintf("k=0 v=%d", variant)
+					}
 					depth := maxLen
+					if seenClass[class] {
+						depth--
+					}
+					seenClass[class] = true
+					if variant == 1 {
+						depth--
+					}
+					if n >= 1000 && depth > maxLen-1 {
+						depth = maxLen - 1 // large bitmaps: the three items practically never collide, one level shallower
+					}
 					cost := uint64(f.size/8+1) * uint64(f.hashIterations)
-					switch {
-					case cost > 64<<20:
+					if cost > 64<<20 && depth > maxLen-2 {
 						depth = maxLen - 2
-					case cost > 1<<20:
+					} else if cost > 1<<20 && depth > maxLen-1 {
 						depth = maxLen - 1
 					}
-					r.Bounds[fmt.Sprintf("history_length[n=%d,p=%v]", n, p)] = depth
+					if depth < 1 {
+						depth = 1
+					}
+					r.Bounds[fmt.Sprintf("history_length[%v]", cfg)] = depth
 					w := c35newWorld()
-					ops := make([]int, depth)
-					var rec func(i int) bool
-					rec = func(i int) bool {
-						if i == depth {
-							if r.TimeUp() {
-								return false
+					for length := 1; length <= depth; length++ {
+						ops := make([]int, length)
+						var rec func(i int) bool
+						rec = func(i int) bool {
+							if i == length {
+								if r.TimeUp() {
+									return false
+								}
+								r.Evaluations++
+								h := c35hist(ops)
+								r.StateStr(cfg.String(), h)
+								if c35run(r, w, cfg, ops, true) {
+									r.NonTrivialStr(cfg.String(), h)
+								}
+								return true
 							}
-							r.Evaluations++
-							h := c35hist(ops)
-							r.StateStr(cfg.String(), h)
-							if c35run(r, w, cfg, ops, true) {
-								r.NonTrivialStr(cfg.String(), h)
+							for o := range c35alphabet {
+								ops[i] = o
+								if !rec(i + 1) {
+									return false
+								}
 							}
 							return true
 						}
-						for o := range c35alphabet {
-							ops[i] = o
-							if !rec(i + 1) {
-								return false
-							}
+						if !rec(0) {
+							return
 						}
-						return true
-					}
-					if !rec(0) {
-						return
 					}
 				}
 			}
